@@ -62,6 +62,19 @@ def plan(ck):
         few = sorted(set(list(ap.words_upto(ap.HOT, 1)) +
                          ap.sample_words(rnd, ap.HOT, 300, 2, 3) +
                          ap.sample_words(rnd, ap.SIGMA, 200, 3, 8)))
+    # drift-directed words: inputs on which the real quoting functions are no
+    # longer the algorithm of Quote.tla go to every argument position
+    from escconf import escape_conformance
+    drift = escape_conformance(ck, only=(
+        'sh_quote', 'mk_shell', 'mk_function', 'nj_shell'))
+    dwords = []
+    for fn, w, out in sorted(drift, key=lambda d: (len(d[1]), d[1])):
+        if w and w not in dwords and all(c in ap.SIGMA or c == '\\'
+                                         for c in w):
+            dwords.append(w)
+    dwords = dwords[:40]
+    words = sorted(set(words + dwords))
+    few = sorted(set(few + dwords))
     by = {}
     for pos in ap.POSITIONS:
         by[pos] = few if pos in ap.GLOBAL or pos in ap.PATHLIKE else words
